@@ -153,6 +153,7 @@ type rewriter struct {
 	genRecv2 map[*ast.CallExpr]bool
 
 	needChan, needSched, needMap bool
+	goschedRuntime               string // local name of package runtime where a Gosched call was rewritten
 }
 
 func (r *rewriter) note(s string) { r.notes = append(r.notes, s) }
@@ -267,6 +268,20 @@ func (r *rewriter) rewrite() bool {
 					break
 				}
 			}
+			if se, ok := x.Fun.(*ast.SelectorExpr); ok && se.Sel.Name == "Gosched" && len(x.Args) == 0 {
+				if id, ok := se.X.(*ast.Ident); ok {
+					if pn, ok := info.Uses[id].(*types.PkgName); ok && pn.Imported().Path() == "runtime" {
+						// runtime.Gosched() -> vsched.Gosched(): a scheduling point at which the caller steps back
+						// behind every other runnable thread (spin-wait loops terminate under the default schedule).
+						// The runtime import stays: other uses may remain; an unused import is silenced below.
+						c.Replace(call(sel("vsched", "Gosched")))
+						r.needSched, changed = true, true
+						r.goschedRuntime = id.Name
+						r.note("gosched")
+						break
+					}
+				}
+			}
 			if k, ok := r.chanLen[x]; ok {
 				c.Replace(call(sel("vchan", k), x.Args...))
 				r.needChan, changed = true, true
@@ -338,6 +353,11 @@ func (r *rewriter) rewrite() bool {
 	}
 	if r.needMap {
 		astutil.AddNamedImport(r.pkg.Fset, r.file, "vmap", shimRoot+"vmap")
+	}
+	if r.goschedRuntime != "" {
+		// keep the file compiling when Gosched was the only use of package runtime
+		r.file.Decls = append(r.file.Decls, &ast.GenDecl{Tok: token.VAR, Specs: []ast.Spec{&ast.ValueSpec{
+			Names: []*ast.Ident{ast.NewIdent("_")}, Values: []ast.Expr{sel(r.goschedRuntime, "NumGoroutine")}}}})
 	}
 	return changed
 }
